@@ -354,6 +354,19 @@ pub fn drive(args: &HashMap<String, String>) {
             }
         }
     }
+    // 3c. NameLadder programs (variables called q, quote, a, c ..): a name that escapes renaming shows as a generated
+    //     name in the output, which then depends on the counter
+    if n_gen > 0 {
+        for (k, (p, _)) in crate::p_compile::name_ladder().into_iter().enumerate() {
+            if n_gen <= 1000 && k % 2 == 1 {
+                continue;
+            }
+            let (b, sig) = [("cl21", "*standard-cl-21*"), ("cl22", "*standard-cl-22*"), ("cl23", "*standard-cl-23*")][k % 3];
+            if crate::p_compile::renderable(&p, b) {
+                gen_srcs.push(JobSrc { key: format!("name{k}:{sig}"), text: p.render(sig), file: "*verif*".to_string(), search: vec![] });
+            }
+        }
+    }
     for j in &gen_srcs {
         let tie = j.key.starts_with("tie");
         for c0 in [8usize, 98, 998, 99_998].into_iter().chain(if tie { vec![100_000usize, 999_998, 1_000_000_000_000] } else { vec![] }) {
